@@ -329,6 +329,11 @@ package ggql
 //@ spec distinctFields(fs []*FieldDef) bool = forall i int, j int {fs[i], fs[j]} :: 0 <= i && i < j && j < len(fs) ==> fs[i] != fs[j]
 //@ spec fieldDefsOk(fs []*FieldDef) bool = distinctFields(fs) && (forall i int {fs[i]} :: 0 <= i && i < len(fs) ==> fs[i] != nil)
 
+//@ -- from the statement ("directives applied only at declared locations"): a directive applied to a field definition, to one
+//@ -- of its arguments or to an input field must be a directive that declares that location
+//@ spec misplaced(du *DirectiveUse, loc Location) bool = !is(du.Directive, *Directive) || dirOf(du) == nil || !allowedAt(dirOf(du), loc, len(dirOf(du).On))
+//@ spec misplacedOnField(fs []*FieldDef) bool = exists i int, j int {fs[i].Dirs[j]} :: 0 <= i && i < len(fs) && 0 <= j && j < len(fs[i].Dirs) && misplaced(fs[i].Dirs[j], LocFieldDefinition)
+//@ spec misplacedOnInputField(fs []*InputField) bool = exists i int, j int {fs[i].Dirs[j]} :: 0 <= i && i < len(fs) && 0 <= j && j < len(fs[i].Dirs) && misplaced(fs[i].Dirs[j], LocInputFieldDefinition)
 //@ func (*Base).validateFieldDefs
 //@   check accumulate {C13}
 //@   props C13
@@ -338,6 +343,7 @@ package ggql
 //@   ensures[no-fields] len(fields.list) == 0 ==> len(errs) > 0
 //@   ensures[bad-field] badFieldUpTo(fields.list, len(fields.list)) ==> len(errs) > 0
 //@   ensures[accepts] len(fields.list) > 0 && !badFieldUpTo(fields.list, len(fields.list)) ==> len(errs) == 0
+//@   ensures[field-directive-location] old(misplacedOnField(fields.list)) ==> len(errs) > 0
 //@   assigns fresh
 //@   loop 0: invariant[bounds] rangeindex+1 <= len(fields.list)
 //@           invariant[found] len(errs) > 0 <==> badFieldUpTo(fields.list, rangeindex+1)
@@ -372,6 +378,7 @@ package ggql
 //@   ensures[no-fields] len(t.fields.list) == 0 ==> len(errs) > 0
 //@   ensures[bad-field] badInputFieldUpTo(t.fields.list, len(t.fields.list)) ==> len(errs) > 0
 //@   ensures[accepts] len(t.fields.list) > 0 && !badInputFieldUpTo(t.fields.list, len(t.fields.list)) ==> len(errs) == 0
+//@   ensures[input-field-directive-location] old(misplacedOnInputField(t.fields.list)) ==> len(errs) > 0
 //@   ensures[iface-accepts-only-valid] len(errs) == 0 ==> validDef(box(t))
 //@   ensures[iface-rejects-invalid] !validDef(box(t)) ==> len(errs) > 0
 //@   use validDefInput(t)
@@ -397,6 +404,23 @@ package ggql
 //@           decreases len(t.values.list) - rangeindex
 //@   loop 1: invariant[outer-bounds] 0 <= rangeindex_outer+1 && rangeindex_outer+1 < len(t.values.list)
 //@           invariant[found] badEnumValueUpTo(t.values.list, t.core, rangeindex_outer+2) ==> len(errs) > 0
+
+//@ -- type names are unique: a type whose name is taken is refused (a scalar defined again is passed over, by design; a scalar
+//@ -- with the name of a type of another kind is a duplicate: fix)
+//@ interface Type.Rank
+//@   pure
+//@ spec typeNamed(root *Root, name string) Type = ite(root.types.dict == nil, nil, root.types.dict[name])
+//@ spec clashes(root *Root, t Type) bool = !is(t, *Directive) && typeNamed(root, t.Name()) != nil && !(t.Rank() == rankScalar && typeNamed(root, t.Name()).Rank() == rankScalar)
+//@ func (*Root).addTypes
+//@   props C03 C13
+//@   check panic {C03}
+//@   requires root != nil
+//@   requires[two-tables] root.types != nil && root.dirs != nil && root.types.dict != root.dirs.dict
+//@   results err
+//@   ensures[duplicate-type-refused]{C13} (exists i int {types[i]} :: 0 <= i && i < len(types) && old(clashes(root, types[i]))) ==> err != nil
+//@   loop 0: invariant[bounds] rangeindex+1 <= len(types)
+//@           invariant[kept]{C13} forall k string {root.types.dict[k]} :: old(root.types.dict[k]) != nil ==> root.types.dict[k] == old(root.types.dict[k])
+//@           invariant[none-yet]{C13} forall j int {types[j]} :: 0 <= j && j <= rangeindex ==> !old(clashes(root, types[j]))
 
 //@ -- ------------------------------------------------------------------ the whole-table check
 //@ -- validDef(t): t satisfies the rules of its kind. Validate of every kind answers "no error iff validDef"; the
